@@ -9,7 +9,7 @@ import random
 import sys
 
 from . import tlc, ser, artefact, pyast, render, proggen, gates as GT
-from .common import Scratch, use_repo
+from .common import is_ret,  Scratch, use_repo
 
 FAILS = []
 
@@ -36,7 +36,7 @@ def part_binding(sc):
     def scase(a, cid, ev=None, gates=None):
         names = [n for n, _ in a["exprs"]]
         return {"id": cid, "inputs": a["inputs"], "exprs": a["exprs"], "unc": True, "ev": a["ev"] if ev is None else ev,
-                "rets": sorted({n for n in names if n.startswith("_ret")}), "temps": sorted({n for n in names if n.startswith("__")}),
+                "rets": sorted({n for n in names if is_ret(n)}), "temps": sorted({n for n in names if n.startswith("__")}),
                 "retbits": a["rets"], "gates": [{"w": g["w"]} for g in (gates or a["gates"])], "nq": a["nq"], "qmap": a["qmap"]}
 
     clean = [acase(a, k) for k, a in enumerate(arts)]
